@@ -201,12 +201,24 @@ def _fabs(x):
 def _unsupported(name):
     real = _M[name]
 
-    def f(*a):
-        if _symbolic(*a):
+    def f(*a, **kw):
+        if _symbolic(*a) or _symbolic(*kw.values()):
             raise Unsupported('math.%s on a symbolic value' % name)
-        return real(*a)
+        return real(*a, **kw)
     f.__name__ = name
     return f
+
+
+def _isclose(a, b, *, rel_tol=1e-09, abs_tol=0.0):
+    """math.isclose: |a - b| <= max(rel_tol * max(|a|, |b|), abs_tol)"""
+    if not _symbolic(a, b, rel_tol, abs_tol):
+        return _M['isclose'](a, b, rel_tol=rel_tol, abs_tol=abs_tol)
+    if any(isinstance(x, (SymAngle, SymAcos, fp64.FPNum)) for x in (a, b, rel_tol, abs_tol)):
+        raise Unsupported('math.isclose on a symbolic angle / FP value')
+    fr = lambda x: Fraction(x) if isinstance(x, _real_float) else x
+    a, b, rel_tol, abs_tol = fr(a), fr(b), fr(rel_tol), fr(abs_tol)
+    d = abs(a - b)
+    return core.Or(d <= rel_tol * abs(a), d <= rel_tol * abs(b), d <= abs_tol)
 
 
 def _trig(name):
@@ -233,8 +245,8 @@ def _trig(name):
 
 
 _MATH_PATCH = {'sqrt': _sqrt, 'acos': _acos, 'asin': _asin, 'atan2': _atan2, 'fabs': _fabs, 'cos': _trig('cos'), 'sin': _trig('sin'),
-               'tan': _trig('tan')}
-for _n in ('atan', 'log10', 'log', 'floor', 'ceil', 'hypot', 'degrees', 'radians', 'isclose',
+               'tan': _trig('tan'), 'isclose': _isclose}
+for _n in ('atan', 'log10', 'log', 'floor', 'ceil', 'hypot', 'degrees', 'radians',
            'exp', 'pow'):
     _MATH_PATCH[_n] = _unsupported(_n)
 
